@@ -1,0 +1,46 @@
+//go:build verif
+
+package galaxy
+
+// Contracts for the verification framework in /verif (comment-only).
+
+// ---- interface naming (C12): the first network is set up on the interface kubelet named, a later one
+// on the interface its annotation entry names (else eth<i>, not expressed: fmt.Sprintf is uninterpreted)
+//@ func [C12,C18] setNetInterface
+//@   ensures [C12:first-network-on-kubelet-interface] idx == 0 ==> result == argIf
+//@   ensures [C12:annotation-interface-respected] idx != 0 && netIf != "" ==> result == netIf
+//@   modifies fresh elemsof(interface{})
+
+// ---- the configuration of a network named in galaxy's json config is the static map itself; a
+// network loaded from the conf dir gets a map of its own; nothing of the static configuration changes
+//@ func [C12,C18] (*Galaxy).getNetworkConf
+//@   ensures [C12:configured-network-uses-static-conf] networkName in g.netConf ==> result1 == nil && result0 == g.netConf[networkName]
+//@   ensures [C12:conf-dir-network-gets-own-map] result1 == nil && !(networkName in g.netConf) ==> result0 == nil || fresh(result0)
+//@   modifies fresh mapsof(map[string]interface{}), fresh elemsof(interface{}), fresh elemsof(byte)
+
+//@ func [C12,C18] parseExtendedCNIArgs
+//@   requires pod != nil
+//@   modifies fresh mapsof(map[string]json.RawMessage), fresh elemsof(byte), fresh elemsof(interface{})
+
+// ---- selection (C12): without a networks annotation and without an ENI network configured, the
+// default networks in their configured order; the first entry always on the interface kubelet named
+//@ pure noNetworksAnnotation(pod *v1.Pod) bool = pod.Annotations == nil || pod.Annotations["k8s.v1.cni.cncf.io/networks"] == ""
+//@ func [C12,C18] (*Galaxy).resolveNetworks
+//@   requires req != nil && req.CmdArgs != nil && pod != nil
+//@   ensures [C12:resolved-networks-are-objects] result1 == nil ==> forall i int {result0[i]} :: 0 <= i && i < len(result0) ==> result0[i] != nil && result0[i].Args != nil
+//@   ensures [C12:first-network-on-kubelet-interface] result1 == nil && len(result0) > 0 ==> result0[0].IfName == req.CmdArgs.IfName
+//@   ensures [C12:default-networks-in-configured-order] result1 == nil && old(noNetworksAnnotation(pod)) && g.ENIIPNetwork == "" ==> len(result0) == len(g.DefaultNetworks) && forall i int {result0[i]} :: 0 <= i && i < len(result0) ==> result0[i].NetworkType == g.DefaultNetworks[i] && (g.DefaultNetworks[i] in g.netConf ==> result0[i].Conf == g.netConf[g.DefaultNetworks[i]])
+//@   modifies fresh cniutil.NetworkInfo.*, fresh elemsof(*cniutil.NetworkInfo), mapsof(map[string]string), fresh mapsof(map[string]interface{}), fresh mapsof(map[string]json.RawMessage), fresh elemsof(interface{}), fresh elemsof(byte), fresh elemsof(string), fresh k8s.NetworkSelectionElement.*, elemsof(*k8s.NetworkSelectionElement)
+//@   loop 0,1 invariant forall j int {networkInfos[j]} :: 0 <= j && j < len(networkInfos) ==> networkInfos[j] != nil && networkInfos[j].Args != nil && fresh(networkInfos[j].Args)
+//@   loop 0,1 invariant len(networkInfos) > 0 ==> networkInfos[0].IfName == req.CmdArgs.IfName
+//@   loop 0,1 invariant len(networkInfos) == idx
+//@   loop 0 invariant forall j int {networkInfos[j]} :: 0 <= j && j < len(networkInfos) ==> networkInfos[j].NetworkType == g.DefaultNetworks[j] && (g.DefaultNetworks[j] in g.netConf ==> networkInfos[j].Conf == g.netConf[g.DefaultNetworks[j]])
+//@   loop 1 invariant forall j int {networks[j]} :: 0 <= j && j < len(networks) ==> networks[j] != nil
+//@   loop 2 invariant true
+//@   loop 3 invariant true
+
+// ---- isolation (C12): serving an ADD changes nothing of the daemon's static configuration: the frame
+// lists the request's argument string, the plugin trace, the state file and fresh objects only
+//@ func [C12,C18] (*Galaxy).cmdAdd
+//@   requires req != nil && req.CmdArgs != nil && pod != nil
+//@   modifies skel.CmdArgs.Args, CniN, CniCmd, CniIf, SavedIDs, SavedLen, SavedIf, fresh cniutil.NetworkInfo.*, fresh elemsof(*cniutil.NetworkInfo), mapsof(map[string]string), fresh mapsof(map[string]interface{}), fresh mapsof(map[string]json.RawMessage), fresh elemsof(interface{}), fresh elemsof(byte), fresh elemsof(string), fresh k8s.NetworkSelectionElement.*, elemsof(*k8s.NetworkSelectionElement), fresh invoke.Args.*, fresh invoke.DefaultExec.*, fresh invoke.RawExec.*
